@@ -376,6 +376,9 @@ add("C03", "open", "lax-raises-parse:python-stack-exhausted-by-nested-expression
     "the lexer accepts the source, so 'in lax mode any source the lexer accepts parses without raising' does not hold for it",
     [{"kind": "hand", "source": "{{ " + "a[" * 2000 + "a" + "]" * 2000 + " }}", "data": V.enc({})}, {"kind": "hand", "source": "{% if " + "(" * 1500 + "a" + ")" * 1500 + " %}x{% endif %}", "data": V.enc({})}])
 
+add("C21", "fixed", "missed-unknown-tag", "tags named like the pseudo entries of the tag register ({% illegal %}, {% content %}, {% output %}) were not reported as unknown although the parser rejects them",
+    [{"source": "{% illegal %}", "extra": False}, {"source": "{% if a %}{% output x %}{% endif %}", "extra": True}, {"source": "{{ a }}{% content %}t", "extra": False}], "59dd9c3")
+
 if __name__ == "__main__":
     # further entries are appended by tools/mkfindings.py from triaged replay files and kept in findings_extra.json
     extra_path = os.path.join(VERIF, "tools", "findings_extra.json")
